@@ -52,7 +52,11 @@ var c05Faults = []string{
 	`[0/0*z].binning(0,1,3,x->x,x->1).values.size()`, `[1/0,0-1/0,z].binning(0,1,3,x->x,x->1).values.size()`, `[{x:0/0,y:z}].binning2d(0,1,2,0,1,2,e->e.x,e->e.y,e->1).values.size()`,
 	`[0/0].binning(0/0,1,3,x->x,x->1).values.size()`, `[z].binning(0,0/0,3,x->x,x->1).values.size()`,
 	// recursion
-	`(func r(n) r(n+1); r(a))`, `(func r(n) 1+r(n); r(a))`, `(func r(n) [r(n)]; r(a))`,
+	`func r(n) r(n+1); r(a)`, `func r(n) 1+r(n); r(a)`, `func r(n) [r(n)]; r(a)`,
+	// ... through the closures that library methods call (they run on stacks of their own)
+	// (more shapes - merge, multiUse, reduce, order - are exhibited natively only: the interpreter needs
+	// minutes to unwind their 10^4 nested error wrappers)
+	`func r(n) [1].map(e->r(n+1)).sum(); r(a)`, `func r(n) [1].accept(e->r(n+1)>0).first(); r(a)`,
 }
 
 // contexts: @ is replaced by the fault expression
@@ -83,10 +87,13 @@ func c05Jobs(tier string, seed int64) []string {
 	r := rng(seed, "c05")
 	for fi, f := range c05Faults {
 		for ci, c := range c05ContextOrder {
-			heavy := strings.HasPrefix(c, "par")
+			_ = strings.HasPrefix(c, "par")
 			recursion := strings.Contains(f, "func r(") || strings.Contains(f, "f(f,")
-			if recursion && (heavy || c == "multiuse" || c == "multiuse2" || c == "mergeop" || c == "listeq") && tier != "thorough" {
-				continue
+			if recursion && !(c == "top" || c == "try" || (tier == "thorough" && (c == "closure" || c == "tryclo"))) {
+				continue // 10^4 levels of recursion cost the interpreter up to two minutes per job
+			}
+			if recursion && tier != "thorough" && (strings.Contains(f, "1+r(n)") || strings.Contains(f, "[r(n)]")) {
+				continue // five minutes each: thorough tier only
 			}
 			usesZ := strings.Contains(f, "z")
 			if usesZ && !strings.Contains(c05Contexts[c], "z->") {
@@ -187,7 +194,11 @@ func c05Run(job string) {
 	prog := strings.Replace(c05Contexts[ctx], "@", fault, 1)
 	f, _, err := fg.Generate(prog, "a", "b")
 	if err != nil {
-		// rejected at generation: an ordinary error as well
+		// rejected at generation: an ordinary error as well - but never because the harness wrote bad syntax
+		if strings.Contains(err.Error(), "error parsing expression") {
+			sym.Note("syntax error in the program: " + err.Error())
+			sym.Assert(false, "template-parses")
+		}
 		sym.Reach("end")
 		return
 	}
